@@ -340,3 +340,19 @@ Proof.
   rewrite Ec in *. rewrite Ec1 in Hhi.
   unfold ideal in *. split; [reflexivity|]. split; nia.
 Qed.
+
+(* the current round never goes back as time advances, and advances by at most one per period *)
+Theorem current_round_monotone now now' p g :
+  dom_p p -> dom_g g -> dom_t g now -> dom_t g now' -> now <= now' ->
+  current_round now p g <= current_round now' p g /\
+  (now' - now < p -> current_round now' p g <= current_round now p g + 1).
+Proof.
+  intros Hp Hg Ht Ht' Hle. rewrite !current_round_spec by assumption.
+  pose proof Hp as [Hp1 Hp2]. destruct Ht as [Ht1 _]. destruct Ht' as [Ht1' _].
+  split.
+  - assert ((now - g) / p <= (now' - g) / p) by (apply Z.div_le_mono; lia). lia.
+  - intros Hd.
+    assert (Hq : (now' - g) / p <= (now - g + p) / p) by (apply Z.div_le_mono; lia).
+    replace (now - g + p) with ((now - g) + 1 * p) in Hq by lia.
+    rewrite Z.div_add in Hq by lia. lia.
+Qed.
